@@ -4,7 +4,8 @@ import HeartwoodModel.Lemmas.Diff
 # C30 — Unified diffs round-trip through their text encoding
 
 Property theorems about `Model/Diff.lean` (hunk header, diff line and hunk level of
-`crates/radicle-cli/src/git/unified_diff.rs`, as on `/repo` main with the two `fix: cli:` commits).
+`crates/radicle-cli/src/git/unified_diff.rs`, as on `/repo` main with the two `fix: cli:` commits
+60c76fb and 050b476).
 The decoder of a whole `Diff` is libgit2's patch parser: it is exercised by the harness on diffs git
 computes between random trees and is *not* covered by these theorems.
 
